@@ -192,7 +192,17 @@
                         let r = std::panic::catch_unwind(|| run_script(outer, sc, second.as_ref()));
                         let fl = match r {
                             Ok(x) => x,
-                            Err(_) => Some(("executor-run-does-not-panic-itself", "C11", "ExecutorInner::run let a panic escape (or panicked itself)".to_string())),
+                            Err(_) => {
+                                // a task's panic that escapes is a reporting failure (C11); a panic of the run itself
+                                // without any panicking task comes from its message accounting (C06)
+                                let has_panic = sc.iter().flatten().any(|s| matches!(s, Step::PanicAs(_)))
+                                    || second.as_ref().map(|s2| s2.iter().flatten().any(|s| matches!(s, Step::PanicAs(_)))).unwrap_or(false);
+                                if has_panic {
+                                    Some(("task-panic-does-not-escape-the-run", "C11", "ExecutorInner::run let a task's panic escape".to_string()))
+                                } else {
+                                    Some(("run-does-not-panic-on-its-own-accounting", "C06", "ExecutorInner::run panicked although no task did (its in-flight count went negative or overflowed)".to_string()))
+                                }
+                            }
                         };
                         if let Some((check, props, detail)) = fl {
                             *counts.entry(check).or_insert(0) += 1;
